@@ -1,6 +1,6 @@
 #!/bin/sh
 # tools/seed_round.sh <round-number> <PID> [extra check ids]: evaluate the three changes of one sub-agent (worktree /tmp/seed<r>-<PID>) -> /tmp/seed<r>_eval_<PID>.log
 r=$1; pid=$2; shift 2
-for k in 1 2 3; do
+for k in ${KS:-1 2 3}; do
   SEEDPFX=seed$r SEEDTAG=r$r- VERIF_WORKERS=${VERIF_WORKERS:-5} /verif/tools/seed_eval.sh $pid $k $pid "$@"
 done > /tmp/seed${r}_eval_$pid.log 2>&1
